@@ -72,7 +72,7 @@ func resolvePipe(p *core.Prog) *pipeRoles {
 				n++
 			}
 		}
-		if n == 2 && (hcIface == nil || core.Implements(st, hcIface)) {
+		if n >= 2 && (hcIface == nil || core.Implements(st, hcIface)) {
 			if pr.ctxT != nil {
 				pr.errf("more than one doubly linked context type")
 			}
@@ -90,12 +90,16 @@ func resolvePipe(p *core.Prog) *pipeRoles {
 		f := pst.Field(i)
 		if isSelfPtr(f.Type(), pr.ctxT) {
 			ends = append(ends, f)
-		} else if b, ok := f.Type().Underlying().(*types.Basic); ok && b.Kind() == types.Int {
-			if pr.size != nil {
-				pr.errf("pipeline has more than one int field (size role ambiguous)")
-			}
-			pr.size = f
 		}
+	}
+	if sz := p.DeclMethod(pr.pipeT, "Size"); sz != nil {
+		core.AllInstrs(sz, func(in ssa.Instruction) {
+			if ret, ok := in.(*ssa.Return); ok && len(ret.Results) == 1 {
+				if f, _ := core.FieldOf(ret.Results[0]); f != nil {
+					pr.size = f
+				}
+			}
+		})
 	}
 	cst := pr.ctxT.Underlying().(*types.Struct)
 	var links []*types.Var
@@ -114,7 +118,7 @@ func resolvePipe(p *core.Prog) *pipeRoles {
 			}
 		}
 	}
-	if len(ends) != 2 || len(links) != 2 || pr.size == nil {
+	if len(ends) != 2 || len(links) < 2 || pr.size == nil {
 		pr.errf("list roles not resolved: %d end fields, %d link fields, size=%v", len(ends), len(links), pr.size != nil)
 		return pr
 	}
@@ -188,7 +192,13 @@ func resolvePipe(p *core.Prog) *pipeRoles {
 			return
 		}
 		f, base := core.FieldOf(st.Addr)
-		if f != links[0] && f != links[1] {
+		isLink := false
+		for _, l := range links {
+			if f == l {
+				isLink = true
+			}
+		}
+		if !isLink {
 			return
 		}
 		bf, _ := core.FieldOf(base)
@@ -621,31 +631,69 @@ func runC03R2(c *core.Ctx, pr *pipeRoles) {
 			}
 			c.Check(payloadOK && len(call.Call.Args)-1 == len(fn.Params)-1, "R2", nm+"/payload", p.InstrPos(call),
 				"the payload forwarded is the member's own parameter, unmodified", "the payload handed to the handler is not the member's own parameter")
-			// walk shape: node = step(phi[recv, node]) along wantLink
-			x, link := pr.stepOf(p, node)
-			shapeOK, why := false, ""
-			switch {
-			case link == nil:
-				why = "the tested node is not obtained by stepping along a link (the walk may test the starting context itself)"
-			case link != wantLink:
-				why = fmt.Sprintf("walks along %s, table says %s", link.Name(), wantLink.Name())
-			default:
-				x = core.Unwrap(core.ForwardLoad(x))
-				if phi, ok := x.(*ssa.Phi); ok {
-					shapeOK = true
+			// walk shape: the tested node T is at least one step away from the receiver on every path
+			// (T is a step, or a phi all of whose edges are steps), all steps follow wantLink, and every
+			// step starts from the receiver, from T, or from a phi over {receiver, T} (one step per test).
+			shapeOK, why := true, ""
+			T := core.Unwrap(core.ForwardLoad(core.Unwrap(node)))
+			isRecv := func(v ssa.Value) bool { return core.SameValue(v, recv) }
+			var isStepVal func(v ssa.Value, d int) bool
+			isStepVal = func(v ssa.Value, d int) bool {
+				if d > 4 {
+					return false
+				}
+				v = core.Unwrap(core.ForwardLoad(core.Unwrap(v)))
+				if _, l := pr.stepOf(p, v); l != nil {
+					return true
+				}
+				if phi, ok := v.(*ssa.Phi); ok {
 					for _, e := range phi.Edges {
-						e = core.Unwrap(core.ForwardLoad(e))
-						if !(core.SameValue(e, recv) || e == core.Unwrap(node)) {
-							shapeOK = false
-							why = "the walk does not start at the receiver or advances by more than one step per iteration"
+						if core.Unwrap(e) == ssa.Value(phi) {
+							continue
+						}
+						if !isStepVal(e, d+1) {
+							return false
 						}
 					}
-				} else if core.SameValue(x, recv) {
-					shapeOK = true // single step, no loop
-				} else {
-					why = "walk start is not the receiver"
+					return len(phi.Edges) > 0
 				}
+				return false
 			}
+			if !isStepVal(T, 0) {
+				shapeOK, why = false, "the tested node is not obtained by stepping along a link (the walk may test the starting context itself)"
+			}
+			okSource := func(x ssa.Value) bool {
+				x = core.Unwrap(core.ForwardLoad(core.Unwrap(x)))
+				if isRecv(x) || x == T {
+					return true
+				}
+				if phi, ok := x.(*ssa.Phi); ok {
+					for _, e := range phi.Edges {
+						e = core.Unwrap(core.ForwardLoad(core.Unwrap(e)))
+						if !(isRecv(e) || e == T || e == ssa.Value(phi)) {
+							return false
+						}
+					}
+					return true
+				}
+				return false
+			}
+			core.AllInstrs(fn, func(in ssa.Instruction) {
+				v, ok := in.(ssa.Value)
+				if !ok {
+					return
+				}
+				x, l := pr.stepOf(p, v)
+				if l == nil {
+					return
+				}
+				if l != wantLink {
+					shapeOK, why = false, fmt.Sprintf("walks along %s, table says %s", l.Name(), wantLink.Name())
+				}
+				if !okSource(x) {
+					shapeOK, why = false, "a step does not start from the receiver or from the node just tested (more than one step per test: a handler is skipped)"
+				}
+			})
 			c.Check(shapeOK, "R2", nm+"/walk", p.InstrPos(call), "walk starts at the receiver, first step before the first test, one step per iteration, along "+wantLink.Name(), "walk shape: "+why)
 			// at most one invoke per call
 			tgt, path := core.Search(call, nil, func(y ssa.Instruction) core.Action {
@@ -1010,10 +1058,29 @@ func runC03R5(c *core.Ctx, pr *pipeRoles) {
 		}
 		c.Instance("R5")
 		c.FuncsSeen[p.QName(fn)] = true
-		// cursor phi
+		// cursor phi (in the method itself or in a repo helper it calls for the walk)
 		var cur *ssa.Phi
 		var cnt *ssa.Phi
-		core.AllInstrs(fn, func(in ssa.Instruction) {
+		walkFn := fn
+		hasPhi := func(f *ssa.Function) bool {
+			h := false
+			core.AllInstrs(f, func(in ssa.Instruction) {
+				if ph, ok := in.(*ssa.Phi); ok && isSelfPtr(ph.Type(), pr.ctxT) {
+					h = true
+				}
+			})
+			return h
+		}
+		if !hasPhi(fn) {
+			core.AllInstrs(fn, func(in ssa.Instruction) {
+				if cc := core.CallCommon(in); cc != nil && !cc.IsInvoke() {
+					if cal := cc.StaticCallee(); cal != nil && p.InRepo(cal) && hasPhi(cal) {
+						walkFn = cal
+					}
+				}
+			})
+		}
+		core.AllInstrs(walkFn, func(in ssa.Instruction) {
 			if ph, ok := in.(*ssa.Phi); ok {
 				if isSelfPtr(ph.Type(), pr.ctxT) && cur == nil {
 					cur = ph
